@@ -33,6 +33,10 @@ thread_local! {
     static TARGET_TRACE: RefCell<Vec<u32>> = const { RefCell::new(Vec::new()) };
     static TARGET_DROP: RefCell<Vec<u32>> = const { RefCell::new(Vec::new()) };
     static OWNER: Cell<(u32, u32, u32)> = const { Cell::new((0, 0, 0)) }; // trace, finalize, drop
+    /// address of a `RefCell<Probe>` the probe's finalizer reads back (a finalizer may look at its
+    /// own cell through another path: `RefCell::finalize` must only hold a shared borrow)
+    static SELF_CELL: Cell<usize> = const { Cell::new(0) };
+    static SELF_READ: Cell<(u32, u32)> = const { Cell::new((0, 0)) }; // attempts, refused
 }
 
 pub struct Probe {
@@ -50,6 +54,15 @@ unsafe impl Trace for Probe {
 impl Finalize for Probe {
     fn finalize(&self) {
         PROBES.with(|p| p.borrow_mut()[self.idx].fin += 1);
+        let cell = SELF_CELL.with(|c| c.get());
+        if cell != 0 {
+            // SAFETY: the cell is a field of the owner that is being finalized right now
+            let ok = unsafe { &*(cell as *const RefCell<Probe>) }.try_borrow().is_ok();
+            SELF_READ.with(|c| {
+                let v = c.get();
+                c.set((v.0 + 1, v.1 + (!ok) as u32));
+            });
+        }
     }
 }
 
@@ -122,6 +135,11 @@ pub enum Shape {
     RefFree,
     RefShared,
     RefMut,
+    /// a shared borrow of the cell is leaked (`mem::forget(cell.borrow())`): tracing reports nothing,
+    /// finalization is still forwarded once
+    RefLeakShared,
+    /// the probe's finalizer reads its own cell back through another path (must be borrowable)
+    RefSelfRead,
     ManDrop,
     AssertUS,
     BoxDyn,
@@ -168,6 +186,8 @@ pub fn shape_strategy() -> BoxedStrategy<Shape> {
         1 => Just(Shape::RefFree),
         1 => Just(Shape::RefShared),
         1 => Just(Shape::RefMut),
+        1 => Just(Shape::RefLeakShared),
+        1 => Just(Shape::RefSelfRead),
         1 => Just(Shape::ManDrop),
         1 => Just(Shape::AssertUS),
         1 => Just(Shape::BoxDyn),
@@ -459,7 +479,7 @@ fn shape_class(s: Shape) -> &'static str {
         Shape::Box1 => "box",
         Shape::OptSome | Shape::OptNone => "option",
         Shape::ResOk | Shape::ResErr => "result",
-        Shape::RefFree | Shape::RefShared | Shape::RefMut => "refcell",
+        Shape::RefFree | Shape::RefShared | Shape::RefMut | Shape::RefLeakShared | Shape::RefSelfRead => "refcell",
         Shape::ManDrop => "manually-drop",
         Shape::AssertUS => "assert-unwind-safe",
         Shape::BoxDyn => "box-dyn",
@@ -557,6 +577,43 @@ pub fn run(case: &CCase, logging: bool) -> CResult {
                 go();
             },
         ),
+        Shape::RefLeakShared => {
+            if cfg!(feature = "finalization") {
+                // the leaked borrow makes the cell's content invisible to tracing for ever, so a cycle
+                // through it is (rightly) never reclaimed: this shape is exercised without a cycle
+                let case = &CCase { cycle: 255, extra: 0, ..case.clone() };
+                exercise(
+                    case,
+                    rr,
+                    false,
+                    |ctx| {
+                        ctx.reporting = false;
+                        let c = RefCell::new(ctx.probe());
+                        std::mem::forget(c.borrow());
+                        c
+                    },
+                    nohold,
+                );
+            }
+        }
+        Shape::RefSelfRead => {
+            SELF_READ.with(|c| c.set((0, 0)));
+            exercise(
+                case,
+                rr,
+                false,
+                |ctx| RefCell::new(ctx.probe()),
+                |o: &Owner<RefCell<Probe>>, go| {
+                    SELF_CELL.with(|c| c.set(&o.c as *const RefCell<Probe> as usize));
+                    go();
+                },
+            );
+            SELF_CELL.with(|c| c.set(0));
+            let (n, refused) = SELF_READ.with(|c| c.get());
+            if refused != 0 {
+                vio(rr, "refcell-finalize-holds-exclusive-borrow", format!("{} of {} finalizers could not borrow their own cell while RefCell::finalize forwarded to them", refused, n));
+            }
+        }
         Shape::ManDrop => exercise(case, rr, true, |ctx| ManuallyDrop::new(ctx.probe()), nohold),
         Shape::AssertUS => exercise(case, rr, false, |ctx| AssertUnwindSafe(ctx.probe()), nohold),
         Shape::BoxDyn => exercise(case, rr, false, |ctx| Box::new(ctx.probe()) as Box<dyn Trace>, nohold),
